@@ -2,6 +2,7 @@ package c15
 
 import (
 	"fmt"
+	"github.com/thushan/olla/internal/adapter/proxy/core"
 	"math/rand"
 	"net/http"
 	"strings"
@@ -170,15 +171,89 @@ func genHeaders(rng *rand.Rand, marker string) [][2]string {
 func TestC15(t *testing.T) {
 	world.Quiet()
 	run := rep.New("C15", "exploration",
-		"seeded header sets sent by a raw-TCP client (every letter-case variant of the five credential names and of the hop-by-hop names, repeated lines, empty values, 0-40 random token-named headers incl. near-miss names, with and without pre-existing single / repeated / comma-joined Via and X-Forwarded-* and X-Real-IP) on the proxy route, after a failover, on Anthropic passthrough and on Anthropic translation, both engines; oracle on the backend's raw header block. distinct = distinct (route, failover, engine, header-set hash)")
+		"seeded header sets sent by a raw-TCP client (every letter-case variant of the five credential names and of the hop-by-hop names, repeated lines, empty values, 0-40 random token-named headers incl. near-miss names, with and without pre-existing single / repeated / comma-joined Via and X-Forwarded-* and X-Real-IP) on the proxy route, after a failover, on Anthropic passthrough and on Anthropic translation, both engines; oracle on the backend's raw header block; plus the engines' shared CopyHeaders called directly on header maps whose keys keep arbitrary letter case (not reachable through Go's HTTP/1 server, which canonicalises). distinct = distinct (route, failover, engine, header-set hash)")
 	seed := rep.Seed()
 	for ei, eng := range []string{"sherpa", "olla"} {
 		runEngine(run, rand.New(rand.NewSource(seed*13+int64(ei))), eng)
 	}
+	headerMapPhase(run, rand.New(rand.NewSource(seed*17+5)))
+	run.Require("header_map_cases", int64(rep.Pick(20000, 400000)))
 	run.Require("records_judged", int64(rep.Pick(4000, 50000)))
 	run.Require("failover_records_judged", int64(rep.Pick(500, 5000)))
 	run.SetAdd("routes", "x")
 	run.Finish(t)
+}
+
+// headerMapPhase calls the engines' shared header copier on header maps whose keys keep the
+// spelling given here. Go's HTTP/1 server canonicalises names read off the wire, so the
+// socket phases can only ever present canonical keys to it; a request assembled inside
+// Olla (translation, middleware) is not bound by that, and the property says "whatever the
+// header's letter case".
+func headerMapPhase(run *rep.Run, rng *rand.Rand) {
+	n := rep.Pick(20000, 400000)
+	for i := 0; i < n; i++ {
+		orig, _ := http.NewRequest("POST", "http://olla.local/olla/proxy/v1/chat/completions", nil)
+		orig.RemoteAddr = "10.1.2.3:5555"
+		orig.Header = http.Header{}
+		var secretKeys, otherKeys []string
+		for _, name := range append(append([]string{}, credentialNames...), hopNames...) {
+			if rng.Intn(3) == 0 {
+				continue
+			}
+			k := randCase(rng, name)
+			orig.Header[k] = []string{"secret-" + randToken(rng, 6)}
+			if rng.Intn(4) == 0 {
+				orig.Header[k] = append(orig.Header[k], "secret-2")
+			}
+			secretKeys = append(secretKeys, k)
+		}
+		for j := rng.Intn(6); j > 0; j-- {
+			k := "X-" + randToken(rng, 3+rng.Intn(8))
+			if forbiddenName(k) {
+				continue
+			}
+			k = randCase(rng, k)
+			orig.Header[k] = []string{randValue(rng)}
+			otherKeys = append(otherKeys, k)
+		}
+		out, _ := http.NewRequest("POST", "http://backend.local/v1/chat/completions", nil)
+		out.Header = http.Header{}
+		core.CopyHeaders(out, orig)
+		run.Count("header_map_cases", 1)
+		if i%64 == 0 {
+			run.Eval(fmt.Sprintf("map/%v", secretKeys))
+		} else {
+			run.EvalN(1)
+		}
+		for k, v := range out.Header {
+			if forbiddenName(k) {
+				run.Violation("C15/header-map/forwarded/"+strings.ToLower(k), fmt.Sprintf("CopyHeaders forwarded %q (spelled %q in the incoming header map) with value %q", http.CanonicalHeaderKey(k), k, v),
+					map[string]any{"incoming_keys": secretKeys, "forwarded_key": k})
+			}
+		}
+		for _, k := range otherKeys {
+			if got, want := out.Header[k], orig.Header[k]; len(got) != len(want) || (len(got) > 0 && got[0] != want[0]) {
+				if alt := out.Header.Values(k); len(alt) == len(want) && len(alt) > 0 && alt[0] == want[0] {
+					continue // re-keyed under the canonical spelling: same header on the wire
+				}
+				run.Violation("C15/header-map/other-header-changed", fmt.Sprintf("header %q: sent %q, forwarded %q", k, want, got), map[string]any{"key": k})
+			}
+		}
+	}
+}
+
+func forbiddenName(k string) bool {
+	for _, n := range credentialNames {
+		if strings.EqualFold(k, n) {
+			return true
+		}
+	}
+	for _, n := range hopNames {
+		if strings.EqualFold(k, n) {
+			return true
+		}
+	}
+	return false
 }
 
 func runEngine(run *rep.Run, rng *rand.Rand, eng string) {
